@@ -252,6 +252,7 @@ func runC08(c *Ctx) {
 	ruleResultOnEveryExit(c)
 
 	ruleGoBounded(c)
+	ruleAuthReadFailureEnds(c)
 	rulePanicUnderLock(c) // a callback panicking under a lock that is not released by defer makes the recovery's Close block: no Logout, socket kept
 	R.Rule("R-state-writers", "who-may-write", "the closed flag is written only by Conn.Close", 1)
 	c.obWriters("Conn.closed", "set once the connection has been given up", "(*Conn).Close")
